@@ -76,6 +76,16 @@ CHECKS = {
         "smoothing keeps end points and straight lines; csg_resample derives value and derivative from one spline on the same grid.",
    note="Not decided: least-squares optimality of Fit, numerical conditioning of the QR solves, behaviour on data. Trusted: clang "
         "front end, sympy polynomial arithmetic."),
+ "C08": dict(cat="other", ref="DESIGN.md section 4 C08",
+   technique="writer/reader field-table extraction from folded fprintf / ostream<< / boost::format arguments and reader sinks (quantity, component, box element, constant factor with clang-evaluated unit constants), dominance check that atom-count mismatches reach a throw expression, registry and storage-order type facts",
+   text="For gro, LAMMPS dump, DLPOLY, xyz and pdb the items a writer emits and the fields a reader stores are extracted "
+        "symbolically and must agree: same quantity and component per column/offset, box elements mapped to the same matrix "
+        "entries (all nine on every path for gro, cell vectors as columns for DLPOLY), unit factors multiplying to one. "
+        "Every reader's atom-count comparison must reach a real throw. Table columns/flag token, IMC matrix layout (row-major "
+        "type fact) and the index-file grammar are paired the same way; every writable extension has a reader.",
+   note="Necessary structural conditions of the round trip, decided for all configurations because they are facts about the "
+        "code's field tables. Not decided: printed precision versus tolerance, bead names/types, multi-frame ordering, xml "
+        "topology reader. Known findings (listed, exit 0): Table error column not restored; PDB writer emits no CRYST1."),
 }
 NA = {
 }
